@@ -6,6 +6,8 @@ pub mod c02;
 pub mod c04;
 pub mod c06;
 pub mod c09;
+pub mod c12;
+pub mod c16;
 
 pub fn lookup(id: &str) -> Option<&'static dyn Property> {
     match id {
@@ -14,6 +16,8 @@ pub fn lookup(id: &str) -> Option<&'static dyn Property> {
         "C04" => Some(&c04::C04),
         "C06" => Some(&c06::C06),
         "C09" => Some(&c09::C09),
+        "C12" => Some(&c12::C12),
+        "C16" => Some(&c16::C16),
         _ => None,
     }
 }
